@@ -110,7 +110,15 @@ def run_rtree(run, focus):
     nrand = 30 if quick else 600
     run.bounds = {"mc": mcs, "cover": gens, "simulate": sims, "random_histories": nrand}
     # ---- replay on the real code
-    allcases = cover + walks
+    # histories kept from earlier findings (regress/C11/*.json) are replayed in every tier
+    import glob
+    kept = []
+    for fn in sorted(glob.glob(os.path.join(vlib.VERIF, "regress", "C11", "*.json"))):
+        with open(fn) as f:
+            kc = json.load(f)
+        kc.pop("note", None)
+        kept.append(kc)
+    allcases = cover + walks + kept
     cpath = os.path.join(out, "cases.ndjson")
     vlib.write_ndjson(cpath, allcases)
     tr_replay = os.path.join(out, "trace_replay.ndjson")
